@@ -668,8 +668,14 @@ def f_midrun(how):
     def root():
         ts = [child.asynq(0), child.asynq(1), child.asynq(2)]
         tasks.extend(ts)
+
+        def provider():
+            probe("inside the provider of a lazily computed Future", [S.get_scheduler()] + list(tasks))
+            return 5
         try:
-            yield ts
+            # (the first child renders the scheduler while a batch item, a lazy Future and unstarted tasks are still
+            #  waiting on the scheduler's stack behind it)
+            yield [ts[0], PI(), F.Future(provider), ts[1], ts[2]]
         except ValueError:
             pass
         probe("after a failure was delivered", [S.get_scheduler(), asynq.get_active_task()] + list(tasks))
